@@ -74,10 +74,18 @@ def gen_case(rng, tmax, malformed_rate=0.08):
     u = rng.random()
     c['IL'] = float(rng.randint(-3, 12)) if u < 0.7 else (_r(rng, -4, 12, 10) if u < 0.93 else float(rng.choice([-60, -45, 400])))
     m = rng.random()
-    c['mode'] = 'opt' if m < 0.6 else ('optgrid' if m < 0.72 else 'eval')
+    c['mode'] = 'opt' if m < 0.42 else ('optgrid' if m < 0.70 else 'eval')
+    if rng.random() < 0.18:
+        # stationary normal instance on which Veinott's conditions for the myopic bounds hold and no truncation binds
+        sc = lambda v: ['scalar', v] if rng.random() < 0.5 else ['list', [v] * T]
+        c.update(h=sc(_r(rng, 0.25, 3)), p=sc(_r(rng, 4, 20)), c=sc(_r(rng, 0, 2)), K=sc(rng.choice([0.0, _r(rng, 1, 30), _r(rng, 1, 30)])),
+                 gamma=sc(rng.choice([1.0, 0.9, 0.95])), mode='opt', d_spread=4, s_spread=5)
+        c['demand'] = dict(kind='normal', mean=sc(_r(rng, 8, 12, 2)), sd=sc(_r(rng, 1, 2, 2)))
+        if norm_list(c['gamma'], T)[T] != 1.0: c['hT'], c['pT'] = 0.0, 0.0
+        c['myopic_friendly'] = True
     if c['mode'] != 'opt':
         lo = -rng.randint(8, 30); c['xr'] = [lo, rng.randint(25, 60)]
-        if c['mode'] == 'optgrid' and rng.random() < 0.6: c['xr'][1] = rng.randint(6, 16)     # too small: forces the range doubling
+        if c['mode'] == 'optgrid' and rng.random() < 0.7: c['xr'][1] = rng.randint(4, 14)     # too small: forces the range doubling
     if c['mode'] == 'eval':
         lo, hi = c['xr']
         def pol():
@@ -432,7 +440,11 @@ def myopic_oracle(c, r, tb, chk):
     chk.count('myopic=checked')
     for t in range(1, T + 1):
         if not (Su[t] - 1 <= r['S'][t] <= So[t] + 1):
-            bad.append(('myopic-S-bounds', 't=%d: S_t=%r outside [S_underbar-1, S_overbar+1] = [%r, %r]' % (t, r['S'][t], Su[t] - 1, So[t] + 1)))
+            bad.append(('myopic-S-bounds', 't=%d: S_t=%r outside [S_underbar-1, S_overbar+1] = [%r, %r]' % (t, r['S'][t], float(Su[t] - 1), float(So[t] + 1))))
+        if K[t] == 0 and r['s'][t] != r['S'][t]: continue     # float near-tie artefact, handled (margin rule) by the K=0 monitor
+        # s_t is a floor of a level defined through G(S_t) + K with S_t itself rounded to the grid: allow two grid units
+        if not np.isnan(so[t]) and not (su[t] - 2 <= r['s'][t] <= so[t] + 2):
+            bad.append(('myopic-s-bounds', 't=%d: s_t=%r outside [s_underbar-2, s_overbar+2] = [%r, %r]' % (t, r['s'][t], float(su[t] - 2), float(so[t] + 2))))
     return bad
 
 
@@ -526,7 +538,7 @@ def explore(chk, n, tmax, do_model=True, malformed_rate=0.08):
             sig = 'finite_horizon_dp|raises-%s' % r['kind'] + ('|T=1' if T == 1 else '')
             chk.fail(sig, 'valid input raises %s: %s' % (r['kind'], r['msg']), c); chk.case(c, False); continue
         tb = tables(c, r['xr'])
-        if c['mode'] == 'opt' and len(r['xr']) != tb['x_max0'] - tb['x_min0'] + 1: chk.count('range_doubled')
+        if c['mode'] != 'eval' and len(r['xr']) != tb['x_max0'] - tb['x_min0'] + 1: chk.count('range_doubled')
         for sig, what in oracle(c, r, chk) + myopic_oracle(c, r, tb, chk):
             chk.fail('finite_horizon_dp|' + sig, what, c)
         nontriv = T >= 2 and (any(r['s'][t] < r['S'][t] for t in range(1, T + 1)) or len(set(r['S'][1:])) > 1)
@@ -551,8 +563,9 @@ def run(chk):
     chk.assume += ['floating-point rounding is not modelled: theorems are over exact rationals; the model is evaluated on the exact rational values of the '
                    "implementation's float tables and compared within 1e-9 relative",
                    'x_range is a contiguous ascending integer range and user oul_matrix entries are integers (what the function itself returns)']
+    chk.extra['near_tie_skipped'] = 0
     chk.proof()
-    n, tmax = (44, 4) if chk.tier == 'quick' else (420, 8)
+    n, tmax = (44, 4) if chk.tier == 'quick' else (300, 8)
     explore(chk, n, tmax)
     if (chk.broken or chk.mismatches) and not chk.fails:
         explore(chk, 6 * n if chk.tier == 'quick' else n, tmax, do_model=False, malformed_rate=0.03)
